@@ -121,9 +121,11 @@ def winRecord (toks : List String) : String :=
     -- estimates: the assert of setTriggeredEvents (tlo < est <= thi); for the modelled family also the buffer-zone bound
     let estOK := reported.all (fun i => match rows[i]? with | some w => tLow < w.est && w.est ≤ tHigh | none => false)
     let nonEmpty := !reported.isEmpty
-    if subsetOK && transOK && orderOK && estOK && nonEmpty then "O win 1"
-    else "O win 0 subset=" ++ toString subsetOK ++ " trans=" ++ toString transOK ++ " order=" ++ toString orderOK
-           ++ " est=" ++ toString estOK ++ " cp=" ++ toString isCP
+    -- 1: everything accepted; 0: some listed trigger does not change sign in its monitored direction across the two returned
+    -- states (the harness reads the same values and must say the same); anything else is a model/implementation disagreement
+    if !(orderOK && estOK && nonEmpty) then
+      "O win BAD order=" ++ toString orderOK ++ " est=" ++ toString estOK ++ " cp=" ++ toString isCP
+    else if subsetOK && transOK then "O win 1" else "O win 0"
   | _ => "O win PARSE"
 
 partial def tsRows : Nat → List String → Bool
